@@ -10,10 +10,11 @@ V = os.path.dirname(os.path.dirname(os.path.abspath(__file__)))
 props = {json.loads(l)["id"]: json.loads(l) for l in open(os.path.join(V, "properties.jsonl"))}
 ROUND2 = "--round2" in sys.argv
 ROUND3 = "--round3" in sys.argv
-T = open(os.path.join(V, "tools", "seed_task_template3.md" if ROUND3 else "seed_task_template2.md" if ROUND2 else "seed_task_template.md")).read()
+ROUND4 = "--round4" in sys.argv
+T = open(os.path.join(V, "tools", "seed_task_template4.md" if ROUND4 else "seed_task_template3.md" if ROUND3 else "seed_task_template2.md" if ROUND2 else "seed_task_template.md")).read()
 for p in [a for a in sys.argv[1:] if not a.startswith("--")]:
     d = props[p]
-    wt = ("/tmp/seed3_%s" if ROUND3 else "/tmp/seed2_%s" if ROUND2 else "/tmp/seed_%s") % p
+    wt = ("/tmp/seed4_%s" if ROUND4 else "/tmp/seed3_%s" if ROUND3 else "/tmp/seed2_%s" if ROUND2 else "/tmp/seed_%s") % p
     os.makedirs(wt + "/out", exist_ok=True)
     open(wt + "/out/TASK.md", "w").write(T.format(wt=wt, id=p, title=d["title"], statement=d["statement"]))
     print("wrote", wt + "/out/TASK.md")
